@@ -30,7 +30,7 @@ RULE = (
     "SyntheticAssignment blocks, one membership-test If per extra target of head / exit-branch blocks, one while per loop region and one continue-flag "
     "update per exiting latch; ast.unparse + compile succeed; names bound beyond the original's match __scfg_*__, names read beyond are __scfg_*__ or "
     "iter/next; generating code a second time from the same graph gives the same text. For G4 additionally: executing the output on all decision tapes reproduces the block trace of an own interpreter of the input graph. "
-    "NotImplementedError = refusal (allowed, counted). Non-trivial = the restructured graph has a synthetic assignment block (the census covers paths "
+    "NotImplementedError = refusal (allowed, counted). Further legs: the same grammar driven coverage-guided by libFuzzer (atheris) through Hypothesis' fuzz_one_input; fixed template families (loops with 3-13 exits, 3-13-arm elif chains, 3-13-operand and/or chains, 3-7-deep while nests, while-True idioms) and a slice (quick) / all (thorough) of an exhaustive family of 3768 loops whose body is an if/elif/else chain over every combination of pass / continue / break / return / statement arms with every kind of tail. Non-trivial = the restructured graph has a synthetic assignment block (the census covers paths "
     "no tape takes). Distinct = hash of the source / graph."
 )
 ASSUME = ["the census is static: it covers code on paths that no explored input takes", "the code generator refuses graphs in which an original block is its own loop latch; refusal share is reported"]
